@@ -140,6 +140,7 @@ class State:
         self.mem = {}       # (root, path) -> term
         self.events = []
         self.decided = {}   # cond term -> value
+        self.excluded = {}  # cond term -> values ruled out by an earlier `otherwise` decision
         self.blocks = []
         self.visits = collections.Counter()
 
@@ -148,6 +149,7 @@ class State:
         s.mem = dict(self.mem)
         s.events = list(self.events)
         s.decided = dict(self.decided)
+        s.excluded = dict(self.excluded)
         s.blocks = list(self.blocks)
         s.visits = collections.Counter(self.visits)
         return s
@@ -490,8 +492,12 @@ class SymEx:
                 else:
                     nxt = None
                 if nxt is None:
-                    # fork
-                    opts = [(v, b2) for v, b2 in targets] + [('else', t['otherwise'])]
+                    # fork; values already excluded for this term on this path are infeasible, and so is an
+                    # `otherwise` edge that leads straight to `unreachable` (exhaustive match)
+                    excl = st.excluded.get(c, ())
+                    opts = [(v, b2) for v, b2 in targets if v not in excl]
+                    if body.blocks[t['otherwise']]['term']['k'] != 'unreachable' or not opts:
+                        opts = opts + [('else', t['otherwise'])]
                     allowed = []
                     for v, b2 in opts:
                         if st.visits[b2] < self.max_visits:
@@ -499,6 +505,9 @@ class SymEx:
                     for i, (v, b2) in enumerate(allowed):
                         s2 = st.clone() if i < len(allowed) - 1 else st
                         s2.decided[c] = v
+                        if v == 'else':
+                            s2.excluded = dict(s2.excluded)
+                            s2.excluded[c] = tuple(set(excl) | {x[0] for x in targets})
                         s2.events.append(Event('branch', term=c, value=v, bb=bb, line=t.get('cline') or t['line'],
                                                args=tuple(x[0] for x in targets)))
                         self._go(s2, b2)
